@@ -16,7 +16,7 @@ import ast
 import math
 
 from ..interval import Analyzer, input_cells, order_feasible
-from ..model import Program, canonical_returns, inline_private_helpers, norm
+from ..model import Program, canonical_returns, expand_locals, inline_private_helpers, norm, single_assignment_locals
 from ..report import AnalysisError
 
 PROP = "C20"
@@ -245,7 +245,8 @@ def rule_r2(rep, program: Program):
     f = k.methods["val"]
     ex = [n for n in ast.walk(f.node) if isinstance(n, ast.Call) and norm(n.func) in ("exp", "math.exp", "np.exp")]
     r.inst({"val": [norm(x) for x in ex]})
-    if not ex or norm(ex[0].args[0]) != "self.log_val":
+    vdefs = single_assignment_locals(f.node)
+    if not ex or norm(expand_locals(ex[0].args[0], vdefs)) != "self.log_val":
         r.violate(PROP, "LogRepFloat.val:not-exp", "the linear value is not exp(log_val)", node=f.node, file=f.file)
     # constructor: zero -> -inf, positive -> log
     f = k.methods["__init__"]
@@ -285,6 +286,21 @@ def rule_r3(rep, program: Program):
                     r.violate(PROP, f"LogRepFloat.{name}:mutates-self:{norm(n)}", f"binary operator {name} assigns `{norm(n)}`: evaluating an expression changes its left operand", node=n, file=f.file)
         if inplace or rets:
             r.inst({"dunder": name, "returns": sorted({norm(x.value) for x in rets})[:3]})
+    # the object is updated in place (__iadd__ assigns self.log_val): nothing derived from log_val may be
+    # remembered on the object
+    k = program.cls("LogRepFloat")
+    mutators = [f.qualname for f in k.methods.values() if f.name != "__init__" and any(isinstance(n, (ast.Assign, ast.AugAssign)) and any(norm(t) == "self.log_val" for t in (n.targets if isinstance(n, ast.Assign) else [n.target])) for n in ast.walk(f.node))]
+    memo_decos = {"cached_property", "functools.cached_property", "lru_cache", "functools.lru_cache", "cache", "functools.cache"}
+    for f in k.methods.values():
+        decos = [norm(d.func if isinstance(d, ast.Call) else d) for d in f.node.decorator_list]
+        memo = [d for d in decos if d in memo_decos]
+        reads = any(norm(n) == "self.log_val" for n in ast.walk(f.node) if isinstance(n, ast.Attribute))
+        lazy_store = [n for n in ast.walk(f.node) if f.name not in ("__init__", "__iadd__") and isinstance(n, ast.Assign) and any(isinstance(t, ast.Attribute) and isinstance(t.value, ast.Name) and t.value.id == "self" and t.attr != "log_val" for t in n.targets)]
+        if reads:
+            r.inst({"member": f.qualname, "memoised": bool(memo or lazy_store)})
+        if reads and mutators and (memo or lazy_store):
+            how = memo[0] if memo else f"the attribute store `{norm(lazy_store[0])[:40]}`"
+            r.violate(PROP, f"{f.qualname}:memoised-on-mutable", f"{f.qualname} remembers a value derived from log_val ({how}) although {mutators[0]} updates log_val in place: after `w.val; w += x` every later read of the plain value (mixed operations, comparisons with numbers, negation) is that of the old weight", node=f.node, file=f.file)
     return r
 
 
